@@ -14,19 +14,35 @@ import (
 	"github.com/ethereum/go-ethereum/core/types"
 )
 
+// zzL1 is the L1 node: the block with the configured finality, the head (at or above it), any block by number; the query by
+// finality tag and the other queries may fail independently.
 type zzL1 struct {
 	ethereum.ChainReader
 	finalized uint64
-	fail      bool
-	asked     *big.Int
+	head      uint64
+	fail      bool // the query by finality tag fails
+	failOther bool // any other header query fails
+	askedTag  bool // a negative (tag) number was asked for
 }
 
 func (c *zzL1) HeaderByNumber(ctx context.Context, number *big.Int) (*types.Header, error) {
-	c.asked = number
-	if c.fail {
+	if number == nil {
+		if c.failOther {
+			return nil, errors.New("rpc error")
+		}
+		return &types.Header{Number: new(big.Int).SetUint64(c.head)}, nil
+	}
+	if number.Sign() < 0 {
+		c.askedTag = true
+		if c.fail {
+			return nil, errors.New("rpc error")
+		}
+		return &types.Header{Number: new(big.Int).SetUint64(c.finalized)}, nil
+	}
+	if c.failOther {
 		return nil, errors.New("rpc error")
 	}
-	return &types.Header{Number: new(big.Int).SetUint64(c.finalized)}, nil
+	return &types.Header{Number: new(big.Int).Set(number)}, nil
 }
 
 // zzInfo follows the contract of the real GetLatestInfoUntilBlock (l1infotreesync/processor.go, checked in C11): block 0 is
@@ -115,12 +131,16 @@ func ZZVerif_C15_Oracle() {
 		f := zzverif.U64("finalized")
 		p := zzverif.U64("processed")
 		zzverif.Assume(f >= l1.finalized && f >= 1 && f < 1<<40 && p >= info.processed && p < 1<<40)
-		l1.finalized, info.processed = f, p
+		h := zzverif.U64("head")
+		zzverif.Assume(h >= f && h >= l1.head && h < 1<<40)
+		l1.finalized, l1.head, info.processed = f, h, p
 		l1.fail, sender.failCheck, sender.failInject = zzverif.Bool("l1Fails"), zzverif.Bool("checkFails"), zzverif.Bool("injectFails")
+		l1.failOther = zzverif.Bool("l1OtherFails")
+		l1.askedTag = false
 		before := len(sender.injected)
 		presentBefore := len(sender.present)
 		err := o.processLatestGER(ctx, &blockNumToFetch)
-		zzverif.Assert("the L1 client is asked for the configured finality", l1.asked != nil && l1.asked.Sign() < 0)
+		zzverif.Assert("the L1 client is asked for the configured finality", l1.askedTag)
 		// the latest leaf at or below the sampled finalized block
 		want := -1
 		for i := range info.leafBlock {
